@@ -27,8 +27,24 @@ def local_defined(ctx, funcs, rule="R-LOCAL-DEFINED", why=""):
     """no feasible path reads a local variable before it is assigned (the read raises UnboundLocalError - in a timer callback or in the job
     pass that ends the job thread).  The path enumeration evaluates an unassigned name as a global; a local of the function that shows up as
     a global in an effect or a condition of a feasible path is such a read."""
+    import builtins
     for fn in funcs:
         names = _locals(fn)
+        # names that are bound nowhere - not in the function, not at module level, not a builtin - are read as globals too (NameError)
+        mod = ctx.prog.modules.get(fn.mod)
+        known = set(dir(builtins))
+        if mod is not None:
+            for n in ast.walk(mod):
+                if isinstance(n, (ast.FunctionDef, ast.ClassDef)):
+                    known.add(n.name)
+                elif isinstance(n, (ast.Import, ast.ImportFrom)):
+                    known |= {(a.asname or a.name).split(".")[0] for a in n.names}
+                elif isinstance(n, ast.Name) and isinstance(n.ctx, ast.Store):
+                    known.add(n.id)
+                elif isinstance(n, ast.arg):
+                    known.add(n.arg)
+        unbound = {n.id for n in ast.walk(fn.node) if isinstance(n, ast.Name) and isinstance(n.ctx, ast.Load)} - known
+        names = names | unbound
         inst = "%s: every local is assigned before it is read on every path" % fn.qual.split(":")[-1]
         if not names:
             ctx.holds(rule, inst)
@@ -67,5 +83,5 @@ def local_defined(ctx, funcs, rule="R-LOCAL-DEFINED", why=""):
             ctx.holds(rule, inst)
         else:
             name, rec = bad
-            ctx.violated(rule, fn, inst, "`%s` is read at line %s on a path that has not assigned it: UnboundLocalError%s" % (
+            ctx.violated(rule, fn, inst, "`%s` is read at line %s on a path that has not assigned it: UnboundLocalError / NameError%s" % (
                 name, getattr(rec.ev.node, "lineno", "?"), why), rec.ev.node)
